@@ -221,7 +221,9 @@ func runC10(tier string) int {
 						Sig:     fmt.Sprintf("C10:ctx%d:differs", ctx),
 						Summary: fmt.Sprintf("command %q ctx=%d:\n  emitted %q\n  want    %q", csrc, ctx, res.Out, strings.Join(wantAll, "\n")),
 						Replay:  map[string]interface{}{"source": src, "want": strings.Join(wantAll, "\n"), "output": res.Out},
-						Recheck: func() bool { return comp.Compile(s2, comp.Opts{Optimize: true}).Out == res.Out },
+						Recheck: func() bool {
+							return comp.Compile(s2, comp.Opts{Optimize: true, Switches: map[string]string{"PV": "SEL"}}).Out == res.Out
+						},
 					})
 				} else if r.WantSample() && nargs >= 3 && hasParen {
 					r.Sample(map[string]interface{}{"command": csrc, "emitted_line": cout, "context": ctx})
